@@ -172,8 +172,48 @@ def full_pool(ck, soups=None, mutants=None, rendered=False):
     return cat(files, ck.wd("pool.ndjson"))
 
 
-def judge(ck, module, trace, name=None, timeout=3600):
-    r = tlc(module, workers=1, env={"TRACE": trace}, name=name or (ck.prop + "_" + module), timeout=timeout, deque=True)
+def judge(ck, module, trace, name=None, timeout=3600, chunk=None):
+    """Judge a recorded trace with a Trace_* module in TLC. `chunk` (a number of records): judges whose
+    verdict on a record does not depend on other records may be given the trace in pieces (TLC reads a
+    trace file into memory whole); reject indices are mapped back to the whole file."""
+    nm = name or (ck.prop + "_" + module)
+    if chunk:
+        n = sum(1 for _ in open(trace))
+        if n > chunk:
+            total = TlcResult()
+            total.ok = True
+            part, k, off, f = 0, 0, 0, None
+            pieces = []
+            with open(trace) as src:
+                for line in src:
+                    if f is None:
+                        pp = "%s.part%d" % (trace, part)
+                        f = open(pp, "w")
+                        pieces.append((pp, off))
+                    f.write(line)
+                    k += 1
+                    if k == chunk:
+                        f.close()
+                        f, part, off, k = None, part + 1, off + k, 0
+            if f:
+                f.close()
+            from concurrent.futures import ThreadPoolExecutor
+            def one(x):
+                return tlc(module, workers=1, env={"TRACE": x[0]}, name="%s_p%d" % (nm, x[1]), timeout=timeout, deque=True)
+            with ThreadPoolExecutor(max_workers=4) as ex:
+                results = list(ex.map(one, pieces))
+            for (pp, off), r in zip(pieces, results):
+                os.remove(pp)
+                if not r.ok:
+                    raise ToolError("judge %s did not complete on records %d..:\n%s" % (module, off + 1, r.out[-2000:]))
+                ck.add_tlc(r)
+                total.judged += r.judged
+                total.states += r.states
+                total.distinct += r.distinct
+                total.wall += r.wall
+                total.rejects += [tuple([x[0] + off] + list(x[1:])) for x in r.rejects]
+            return total
+    r = tlc(module, workers=1, env={"TRACE": trace}, name=nm, timeout=timeout, deque=True)
     if not r.ok:
         raise ToolError("judge %s did not complete:\n%s" % (module, r.out[-2000:]))
     ck.add_tlc(r)
